@@ -14,6 +14,7 @@ import RdestModel.Lemmas.NoCancel
 import RdestModel.Props.C01
 import RdestModel.Props.C11
 import RdestModel.Lemmas.HaveRange
+import RdestModel.Lemmas.BitfieldLen
 set_option linter.unusedSimpArgs false
 set_option linter.unusedVariables false
 namespace Rdest.Props.C12
@@ -488,6 +489,52 @@ theorem T10_whole_client_manager_never_panics (T : Torrent) (sha1 : Bytes → By
     ∀ why, mstep S.m ev ≠ .panic why :=
   T9_whole_client_manager_never_panics T sha1 S (reachN_reach T sha1 S h) a d inp t' outs e hal
     (numOk_reach T sha1 S h a hal) hh c hc chosen bits ev hev hbits
+
+/-- The manager event a command becomes, with the bitfield decoded as the manager does (`Bitfield::to_vec(pieces_num)`;
+    `none` for a bitfield = the decoder's `Err(InvalidLength)`, which would end the manager's loop with an error). -/
+def evOfCmdReal (a : Nat) (chosen : Option Nat) (n : Nat) : Cmd → Option Ev
+  | .recvBitfield bs => (toVec bs n).map fun bits => .bitfield a bits chosen
+  | c => evOfCmd a chosen [] c
+
+/-- **T11 (whole client, "no sequence of peer events makes the manager panic"), no premise left but `ReachN`.** In every
+    reachable state of the whole client (tasks created with the torrent's piece count; any number of connections, any
+    interleaving, any peer input, any outcome of the random piece choice), for every command a live connection task sends
+    while handling any input: a bitfield it passes on decodes (`to_vec` does not fail — `recvBitfield_len`,
+    `toVec_of_validated`: the task has validated the byte count, and such bytes decode to exactly `pieces_num` bits),
+    and the manager's handling of the command does not panic. -/
+theorem T11_whole_client_manager_never_panics (T : Torrent) (sha1 : Bytes → Bytes) (S : Sys) (h : ReachN T sha1 S)
+    (a : Nat) (d : Option (Bytes × Bytes)) (inp : HIn) (t' : HState) (outs : List HOut) (e : Option Bool)
+    (hal : (S.tasks a).alive = true)
+    (hh : hstep sha1 (diskOf d) (S.tasks a) inp = some (t', outs, e))
+    (c : Cmd) (hc : c ∈ cmdsOf outs) (chosen : Option Nat) :
+    (∀ bs, c = .recvBitfield bs → (toVec bs S.m.statuses.length).isSome = true) ∧
+    ∀ ev, evOfCmdReal a chosen S.m.statuses.length c = some ev → ∀ why, mstep S.m ev ≠ .panic why := by
+  have hnum := numOk_reach T sha1 S h a hal
+  have hdec : ∀ bs, c = .recvBitfield bs → ∃ bits, toVec bs S.m.statuses.length = some bits ∧ bits.length = S.m.statuses.length := by
+    intro bs hb; subst hb
+    have := recvBitfield_len sha1 (diskOf d) (S.tasks a) inp t' outs e hh bs hc
+    rw [hnum] at this
+    exact toVec_of_validated bs _ this
+  refine ⟨?_, ?_⟩
+  · intro bs hb
+    obtain ⟨bits, hb1, _⟩ := hdec bs hb
+    rw [hb1]; rfl
+  · intro ev hev
+    cases c with
+    | recvBitfield bs =>
+      obtain ⟨bits, hb1, hb2⟩ := hdec bs rfl
+      simp only [evOfCmdReal, hb1, Option.map_some, Option.some.injEq] at hev
+      exact T10_whole_client_manager_never_panics T sha1 S h a d inp t' outs e hal hh _ hc chosen bits ev
+        (by rw [← hev]; rfl) (by intro bs' _; exact hb2)
+    | init pid => cases hev
+    | recvRequest idx => cases hev
+    | recvChoke => exact T10_whole_client_manager_never_panics T sha1 S h a d inp t' outs e hal hh _ hc chosen [] ev hev (by intro bs hb; cases hb)
+    | recvUnchoke => exact T10_whole_client_manager_never_panics T sha1 S h a d inp t' outs e hal hh _ hc chosen [] ev hev (by intro bs hb; cases hb)
+    | recvInterested => exact T10_whole_client_manager_never_panics T sha1 S h a d inp t' outs e hal hh _ hc chosen [] ev hev (by intro bs hb; cases hb)
+    | recvNotInterested => exact T10_whole_client_manager_never_panics T sha1 S h a d inp t' outs e hal hh _ hc chosen [] ev hev (by intro bs hb; cases hb)
+    | recvHave i => exact T10_whole_client_manager_never_panics T sha1 S h a d inp t' outs e hal hh _ hc chosen [] ev hev (by intro bs hb; cases hb)
+    | pieceDone => exact T10_whole_client_manager_never_panics T sha1 S h a d inp t' outs e hal hh _ hc chosen [] ev hev (by intro bs hb; cases hb)
+    | pieceCancel => exact T10_whole_client_manager_never_panics T sha1 S h a d inp t' outs e hal hh _ hc chosen [] ev hev (by intro bs hb; cases hb)
 
 /-- Non-vacuity (test): a reachable state of the whole client with a `Reserved` piece — one connection: handshake,
     `Interested`, `Unchoke` answered with a request for piece 0. -/
